@@ -13,7 +13,8 @@
      reset_guarded : whether retryState.reset() only releases a reservation it holds
      direct_clears_again : whether processError's direct-response branch cancels a pending re-match / re-choose-host
      direct_cancels_retry : whether that branch releases the retry reservation and cancels a retry set up in the same call
-     put_resets_cursor : whether streamfilter.PutStreamFilterChain zeroes the filter cursors before the chain object is pooled *)
+     put_resets_cursor : whether streamfilter.PutStreamFilterChain zeroes the filter cursors before the chain object is pooled
+     retry_checks_direct : whether doRetry returns without sending when a local reply became pending during the retry interval *)
 From Coq Require Import List ZArith Bool Arith Lia.
 From RecordUpdate Require Import RecordSet.
 Import ListNotations RecordSetNotations.
@@ -36,7 +37,7 @@ Record sfilter := { sf_verdicts : list verdict (* VContinue | VStop | VTerm *) }
 Inductive route := RouteNone | RouteDirect (code : Z) (body : bool) | RouteNoCluster | RouteForward.
 
 Record srcp := { loop_bound : nat; min_budget : nat; reset_guarded : bool; direct_clears_again : bool; direct_cancels_retry : bool;
-  put_resets_cursor : bool; reason_code : reason -> Z }.
+  put_resets_cursor : bool; retry_checks_direct : bool; reason_code : reason -> Z }.
 
 Record cfg := {
   c_oneway : bool; c_data : bool; c_trailers : bool;
@@ -53,7 +54,7 @@ Record cfg := {
   <c_oneway; c_data; c_trailers; c_route; c_nhosts; c_retry_on; c_num_retries; c_codes; c_try_timeout; c_max_retries; c_recv; c_send;
    c_pool; c_delay>.
 #[export] Instance eta_srcp : Settable _ := settable! Build_srcp
-  <loop_bound; min_budget; reset_guarded; direct_clears_again; direct_cancels_retry; put_resets_cursor; reason_code>.
+  <loop_bound; min_budget; reset_guarded; direct_clears_again; direct_cancels_retry; put_resets_cursor; retry_checks_direct; reason_code>.
 
 Inductive rkind := KUp | KHijack | KDirect.
 Record resp := { r_kind : rkind; r_code : Z; r_data : bool; r_trailers : bool }.
@@ -405,7 +406,7 @@ Definition receive_trailers : A :=
   ite process_done_b ret
     (upd (fun s => s <| recv_done := true |>) ;; request_sent ;; up_append_trailers ;; when process_done clean_stream).
 
-Definition do_retry : A :=
+Definition do_retry_send : A :=
   emit OChoose ;;
   if (c_nhosts c =? 0)%nat then
     when has_upreq (upd (fun s => s <| setup_retry := false |>)) ;; hijack 502 false ;; clean_up
@@ -417,6 +418,8 @@ Definition do_retry : A :=
     (if c_trailers c then up_append_trailers else ret) ;;
     setup_per_req_timeout ;;
     upd (fun s => s <| req_sent := true |> <| recv_done := true |>).
+
+Definition do_retry : A := if retry_checks_direct src then ite direct ret do_retry_send else do_retry_send.
 
 (* ----- response path ----- *)
 Definition end_stream : A := clean_stream.
